@@ -275,6 +275,18 @@ impl Property for C09 {
                         }
                     }
                 }
+                // F-EXH-BRANCH: a branch in the scanned tail whose own tail is bounded text
+                // (`<{a,b}/>`, `<<?a>/>*`) contributes a zero term and is then treated as if it
+                // were open.  Predicted: the descendant matches once those branches are widened
+                // to `*`.
+                if crate::findings::is_open("F-EXH-BRANCH", "C09") {
+                    let widened: Vec<Expr> = case.exprs.iter().map(|e| widen_tail(&strip_flags(e))).collect();
+                    let changed = widened.iter().zip(case.exprs.iter()).any(|(w, e)| *w != strip_flags(e));
+                    if changed && widened.iter().any(|w| crate::refmatch::lenient_match_with(w, d, Default::default())) {
+                        st.known("F-EXH-BRANCH", || format!("{} matches {:?} but not {:?}", text, p, d));
+                        continue;
+                    }
+                }
                 // F-EXH-TRAILSEP: the pattern ends in a repetition whose unfoldings end in a
                 // separator; wax reasons about `x/`-terminated text, so the descendant *with a
                 // trailing separator* does match
@@ -329,4 +341,68 @@ pub fn raise_optional(e: &Expr) -> Expr {
             t => t.clone(),
         })
         .collect()
+}
+
+fn open_leaf(t: &Tok) -> bool {
+    matches!(t, Tok::Sep | Tok::Zom { .. } | Tok::Tree { .. })
+}
+fn open_tok(t: &Tok) -> bool {
+    match t {
+        Tok::Alt(bs) => bs.iter().all(|b| b.iter().all(open_tok)),
+        Tok::Rep { body, .. } => body.iter().all(open_tok),
+        t => open_leaf(t),
+    }
+}
+
+fn unbounded_depth(t: &Tok) -> bool {
+    match t {
+        Tok::Tree { .. } => true,
+        Tok::Alt(bs) => bs.iter().any(|b| b.iter().any(unbounded_depth)),
+        Tok::Rep { body, hi, .. } => {
+            body.iter().any(unbounded_depth)
+                || (hi.is_none() && any_tok(body, &|t, _| matches!(t, Tok::Sep)))
+        },
+        _ => false,
+    }
+}
+
+/// F-EXH-BRANCH quirk model: follow wax's tail scan (from the end of every concatenation, over
+/// open tokens); a *nested* concatenation whose scan takes nothing (its last token bounds the
+/// text) is what wax turns into a zero term and then treats as transparent — widen it to `*`.
+pub fn widen_tail(e: &Expr) -> Expr {
+    fn go(e: &Expr, nested: bool) -> Expr {
+        let mut out = e.clone();
+        let mut i = e.len();
+        let mut first = true;
+        while i > 0 {
+            i -= 1;
+            match &e[i] {
+                t if t.is_branch() => {
+                    out[i] = match t {
+                        Tok::Alt(bs) => Tok::Alt(bs.iter().map(|b| go(b, true)).collect()),
+                        Tok::Rep { body, lo, hi, spell } => {
+                            Tok::Rep { body: go(body, true), lo: *lo, hi: *hi, spell: *spell }
+                        },
+                        _ => unreachable!(),
+                    };
+                    if !open_tok(t) {
+                        break;
+                    }
+                },
+                t if open_leaf(t) => {},
+                _ => {
+                    // bounded leaf: the scan stops here; unless the scanned part has unbounded
+                    // depth, wax yields a zero term for this concatenation
+                    let _ = first;
+                    if nested && !e[i + 1..].iter().any(unbounded_depth) {
+                        return vec![Tok::Zom { lazy: false }];
+                    }
+                    break;
+                },
+            }
+            first = false;
+        }
+        out
+    }
+    go(e, false)
 }
